@@ -1,8 +1,10 @@
 package main
 
 import (
+	"bufio"
 	"context"
 	"fmt"
+	"net"
 	"sync"
 	"sync/atomic"
 	"time"
@@ -10,6 +12,7 @@ import (
 	"github.com/santhosh-tekuri/raft"
 
 	"verif/ev"
+	"verif/memnet"
 )
 
 func init() {
@@ -595,7 +598,7 @@ func scenIdentity(e *engineA) error {
 		cl, other := cls[ci], cls[1-ci]
 		id := uint64(1 + e.rng.Intn(3))
 		n := cl.node(id)
-		switch act := e.rng.Intn(7); act {
+		switch act := e.rng.Intn(8); act {
 		case 0: // the node's address now leads to the same node id of the other cluster
 			on := other.node(id)
 			if on == nil || n == nil || !on.alive() || !n.alive() {
@@ -655,6 +658,19 @@ func scenIdentity(e *engineA) error {
 				}
 				e.wireTalk(n, cid, nid)
 			}
+		case 7: // the address leads to a peer that refuses the handshake but keeps the connection open
+			if n == nil || !n.alive() {
+				continue
+			}
+			e.rc.emit(&ev.Rec{K: "fault", Op: "rebind-to-honeypot", Cid: cl.cid, Nid: id})
+			hp := e.honeypot(cl, id)
+			e.net.Rebind(n.addr, hp)
+			for _, m := range cl.liveNodes() {
+				e.net.BreakConns(m.label, n.label)
+			}
+			e.sleepHB(3, 6)
+			e.net.Rebind(n.addr, n.lis)
+			_ = hp.Close()
 		case 4, 5: // the directory of a serving node is used again
 			if n == nil || !n.alive() {
 				continue
@@ -1055,4 +1071,52 @@ func scenStaleQueueReelection(e *engineA) error {
 	e.startClients(2, map[string]int{"update": 3, "read": 2})
 	e.sleepHB(3, 6)
 	return e.finish()
+}
+
+// honeypot: a peer that answers the identity handshake with a mismatch but
+// does not hang up. A dialer of the library must not send anything else on
+// that connection; whatever arrives is recorded.
+func (e *engineA) honeypot(cl *Cluster, id uint64) *memnet.Listener {
+	lis := e.net.Listen(fmt.Sprintf("honeypot%d:1", cl.nextOp()), fmt.Sprintf("honeypot-c%dn%d", cl.cid, id))
+	go func() {
+		for {
+			c, err := lis.Accept()
+			if err != nil {
+				return
+			}
+			go func(c net.Conn) {
+				defer c.Close()
+				br := bufio.NewReader(c)
+				refused := false
+				for {
+					_ = c.SetReadDeadline(time.Now().Add(20 * e.hb()))
+					b, err := br.ReadByte()
+					if err != nil {
+						return
+					}
+					if int(b) > 4 {
+						return
+					}
+					kind := []string{"identity", "vote", "append", "installSnap", "timeoutNow"}[int(b)]
+					req, err := raft.VerifDecodeReq(kind, br)
+					if err != nil {
+						return
+					}
+					if kind == "identity" && !refused {
+						refused = true
+						out, _ := raft.VerifEncodeResp(raft.VerifMsg{Kind: "identity", Result: "identityMismatch"})
+						if _, err := c.Write(out); err != nil {
+							return
+						}
+						e.rc.emit(&ev.Rec{K: "honeypot-handshake", Cid: cl.cid, Nid: id, Src: req.Src, A: req.A, B: req.B})
+						continue
+					}
+					// anything after the refused handshake
+					e.rc.emit(&ev.Rec{K: "honeypot-request", Cid: cl.cid, Nid: id, RPC: kind, Src: req.Src, ReqTerm: req.Term})
+					return
+				}
+			}(c)
+		}
+	}()
+	return lis
 }
